@@ -138,14 +138,28 @@ func init() {
 		"IsManuallyManaged": func(c *Ctx, s *Shadow, args []Value, sig *types.Signature) Value {
 			return c.St.BoolC(s.twin.IsManuallyManaged())
 		},
-		"IsMasked":         func(c *Ctx, s *Shadow, args []Value, sig *types.Signature) Value { return c.St.BoolC(s.twin.IsMasked()) },
-		"IsMaterializable": func(c *Ctx, s *Shadow, args []Value, sig *types.Signature) Value { return c.St.BoolC(s.twin.IsMaterializable()) },
-		"IsView":           func(c *Ctx, s *Shadow, args []Value, sig *types.Signature) Value { return c.St.BoolC(s.twin.IsView()) },
-		"IsMatrix":         func(c *Ctx, s *Shadow, args []Value, sig *types.Signature) Value { return c.St.BoolC(s.twin.IsMatrix()) },
-		"IsVector":         func(c *Ctx, s *Shadow, args []Value, sig *types.Signature) Value { return c.St.BoolC(s.twin.IsVector()) },
-		"IsRowVec":         func(c *Ctx, s *Shadow, args []Value, sig *types.Signature) Value { return c.St.BoolC(s.twin.IsRowVec()) },
-		"IsColVec":         func(c *Ctx, s *Shadow, args []Value, sig *types.Signature) Value { return c.St.BoolC(s.twin.IsColVec()) },
-		"RequiresIterator": func(c *Ctx, s *Shadow, args []Value, sig *types.Signature) Value { return c.St.BoolC(s.twin.RequiresIterator()) },
+		"IsMasked": func(c *Ctx, s *Shadow, args []Value, sig *types.Signature) Value {
+			return c.St.BoolC(s.twin.IsMasked())
+		},
+		"IsMaterializable": func(c *Ctx, s *Shadow, args []Value, sig *types.Signature) Value {
+			return c.St.BoolC(s.twin.IsMaterializable())
+		},
+		"IsView": func(c *Ctx, s *Shadow, args []Value, sig *types.Signature) Value { return c.St.BoolC(s.twin.IsView()) },
+		"IsMatrix": func(c *Ctx, s *Shadow, args []Value, sig *types.Signature) Value {
+			return c.St.BoolC(s.twin.IsMatrix())
+		},
+		"IsVector": func(c *Ctx, s *Shadow, args []Value, sig *types.Signature) Value {
+			return c.St.BoolC(s.twin.IsVector())
+		},
+		"IsRowVec": func(c *Ctx, s *Shadow, args []Value, sig *types.Signature) Value {
+			return c.St.BoolC(s.twin.IsRowVec())
+		},
+		"IsColVec": func(c *Ctx, s *Shadow, args []Value, sig *types.Signature) Value {
+			return c.St.BoolC(s.twin.IsColVec())
+		},
+		"RequiresIterator": func(c *Ctx, s *Shadow, args []Value, sig *types.Signature) Value {
+			return c.St.BoolC(s.twin.RequiresIterator())
+		},
 		"DataOrder": func(c *Ctx, s *Shadow, args []Value, sig *types.Signature) Value {
 			return c.St.BVC(8, uint64(s.twin.DataOrder()))
 		},
